@@ -11,6 +11,7 @@ import os
 
 ENABLED = os.environ.get("MAGPYLIB_VERIF") == "1"
 _handler = None
+_order_handler = None
 
 
 def set_handler(handler):
@@ -23,3 +24,18 @@ def fault_point(name, **ctx):
     """Cooperative fault point; does nothing in normal operation."""
     if _handler is not None:
         _handler(name, ctx)
+
+
+def set_order_handler(handler):
+    """Install (or remove with None) the iteration-order handler. Ignored when disabled."""
+    global _order_handler  # pylint: disable=global-statement
+    _order_handler = handler if ENABLED else None
+
+
+def iteration_order(name, unordered, items):
+    """Seam for hash-order nondeterminism. Returns `unordered` (e.g. a set whose
+    iteration order depends on object addresses) unchanged in normal operation;
+    under simulation the handler decides the order of the unique `items`."""
+    if _order_handler is None:
+        return unordered
+    return _order_handler(name, list(dict.fromkeys(items)))
